@@ -13,7 +13,7 @@ use serde::{Deserialize, Serialize};
 use serde_json::json;
 use std::collections::{BTreeMap, BTreeSet};
 
-pub const NAMES: &[&str] = &["a", "b", "c", "f", "g", "fs", "r"];
+pub const NAMES: &[&str] = &["a", "b", "c", "d", "f", "g", "fs", "r", "s"];
 
 #[derive(Clone, Debug, Serialize, Deserialize, PartialEq)]
 pub enum Fault {
@@ -146,6 +146,32 @@ impl<'a> Gen<'a> {
         }
     }
 
+    /// `inner` (an assignment) placed at some evaluated position of a larger expression.
+    fn in_position(&mut self, inner: E) -> E {
+        match self.rng.below(20) {
+            0 => E::List(vec![inner, self.small_num()]),
+            1 => E::Rec(vec![RK::Static("k".into(), inner)]),
+            2 => bin("+", inner, num(1)),
+            3 => bin("*", num(2), inner),
+            4 => call(id("len"), vec![E::List(vec![inner])]),
+            5 => E::Rec(vec![RK::Dyn(st("dk"), inner)]),
+            6 => E::Rec(vec![RK::Dyn(bin("+", st("d"), call(id("to_string"), vec![inner])), num(1))]),
+            7 => call(lam(&["v"], id("v")), vec![inner]),
+            8 => E::List(vec![E::Spread(Box::new(E::List(vec![inner])))]),
+            9 => cond(E::Bool(true), inner, num(0)),
+            10 => cond(bin(".==", inner, num(1)), num(1), num(2)),
+            11 => bin("??", inner, num(0)),
+            12 => bin("into", inner, lam(&["v"], id("v"))),
+            13 => bin("via", E::List(vec![inner]), lam(&["v"], id("v"))),
+            14 => E::Rec(vec![RK::Spread(E::Rec(vec![RK::Static("k".into(), inner)]))]),
+            15 => idx(E::List(vec![inner]), num(0)),
+            16 => dot(E::Rec(vec![RK::Static("k".into(), inner)]), "k"),
+            17 => call(id("concat"), vec![E::List(vec![num(1)]), E::List(vec![inner])]),
+            18 => bin(".==", E::List(vec![inner.clone()]), E::List(vec![num(1)])),
+            _ => E::List(vec![E::List(vec![E::Rec(vec![RK::Static("deep".into(), inner)])])]),
+        }
+    }
+
     fn lambda(&mut self, self_name: Option<&str>) -> E {
         let p = (*self.rng.pick(&["x", "n", "a", "b", "k"])).to_string(); // may shadow a bound name
         match self.rng.below(8) {
@@ -187,7 +213,7 @@ impl<'a> Gen<'a> {
             6,  // 2 rebind
             5,  // 3 bind reserved
             6,  // 4 alias
-            8,  // 5 nested assignment
+            12, // 5 nested assignment
             8,  // 6 do-block shadow
             6,  // 7 call shadow
             6,  // 8 callback assigns
@@ -198,6 +224,7 @@ impl<'a> Gen<'a> {
             6,  // 13 handle
             4,  // 14 self-nested
             3,  // 15 closure-returning do block
+            8,  // 16 derive
         ];
         let k = self.rng.pick_weighted(&w);
         match k {
@@ -271,6 +298,21 @@ impl<'a> Gen<'a> {
                 let n = if self.rng.chance(3, 4) { self.free_name().unwrap_or_else(|| self.any_name()) } else { self.any_name() };
                 let v = self.data(1).0;
                 let inner = assign(&n, v);
+                if self.rng.chance(1, 2) {
+                    // any evaluated position; the target is fresh, already bound (must fail) or
+                    // a reserved non-keyword name (must fail)
+                    let target = match self.rng.below(6) {
+                        0 => self.bound_any().unwrap_or(n.clone()),
+                        1 => (*self.rng.pick(&["sum", "map", "inputs", "constants", "len", "keys", "print", "time_now", "ugt", "to_string"])).to_string(),
+                        _ => n.clone(),
+                    };
+                    let inner = assign(&target, self.data(1).0);
+                    let e = self.in_position(inner);
+                    if target == n {
+                        self.bound.entry(n).or_insert(Ty::Num);
+                    }
+                    return (Stmt::Expr(e), "nested-assign-position");
+                }
                 let e = match self.rng.below(7) {
                     0 => E::List(vec![inner, self.small_num()]),
                     1 => E::Rec(vec![RK::Static("k".into(), inner)]),
@@ -384,6 +426,23 @@ impl<'a> Gen<'a> {
                     let e = if self.rng.chance(1, 3) { E::List(vec![e.clone(), e, id(&l)]) } else { e };
                     (Stmt::Expr(e), "builtin-on-bound")
                 }
+                None if self.bound_of(&[Ty::Str]).is_some() && self.rng.chance(1, 2) => {
+                    let sname = self.bound_of(&[Ty::Str]).unwrap();
+                    let target = self.alias_path(id(&sname));
+                    let e = match self.rng.below(10) {
+                        0 => bin("+", target, st("!")),
+                        1 => bin("+", st(">"), target),
+                        2 => call(id(*self.rng.pick(&["uppercase", "lowercase", "trim"])), vec![target]),
+                        3 => call(id("replace"), vec![target, st("a"), st("b")]),
+                        4 => call(id("split"), vec![target, st("")]),
+                        5 => E::List(vec![E::Spread(Box::new(target))]),
+                        6 => call(id("slice"), vec![target, num(0), num(1)]),
+                        7 => call(id(*self.rng.pick(&["head", "tail", "len", "to_string"])), vec![target]),
+                        8 => call(id("format"), vec![st("{}{}"), target, id(&sname)]),
+                        _ => call(id("join"), vec![E::List(vec![target, id(&sname)]), st("")]),
+                    };
+                    (Stmt::Expr(e), "builtin-on-bound")
+                }
                 None => match self.bound_of(&[Ty::Rec]) {
                     Some(r) => {
                         let target = self.alias_path(id(&r));
@@ -457,6 +516,44 @@ impl<'a> Gen<'a> {
                 };
                 self.bound.entry(n).or_insert(Ty::Num);
                 (Stmt::Expr(e), "self-nested")
+            }
+            16 => {
+                // a new binding derived from a bound value: the result may share inner cells
+                let n = self.free_name().unwrap_or_else(|| self.any_name());
+                let (e, ty) = match self.bound_of(&[Ty::List]) {
+                    Some(l) => {
+                        let t = self.alias_path(id(&l));
+                        match self.rng.below(9) {
+                            0 => (call(id("slice"), vec![t, num(0), num(2)]), Ty::List),
+                            1 => (call(id("flatten"), vec![E::List(vec![t, id(&l)])]), Ty::List),
+                            2 => (call(id("zip"), vec![t, id(&l)]), Ty::List),
+                            3 => (call(id("chunk"), vec![t, num(2)]), Ty::List),
+                            4 => (E::List(vec![t, id(&l)]), Ty::List),
+                            5 => (call(id("concat"), vec![t, E::List(vec![])]), Ty::List),
+                            6 => (E::Rec(vec![RK::Static("k".into(), num(1)), RK::Static("xs".into(), t)]), Ty::Rec),
+                            7 => (call(id("tail"), vec![t]), Ty::List),
+                            _ => (t, Ty::List),
+                        }
+                    }
+                    None => match self.bound_of(&[Ty::Rec]) {
+                        Some(r) => {
+                            let t = self.alias_path(id(&r));
+                            match self.rng.below(5) {
+                                0 => (E::Rec(vec![RK::Spread(t)]), Ty::Rec),
+                                1 => (E::Rec(vec![RK::Spread(t), RK::Static("k".into(), num(2))]), Ty::Rec),
+                                2 => (call(id("values"), vec![t]), Ty::List),
+                                3 => (call(id("entries"), vec![t]), Ty::List),
+                                _ => (t, Ty::Rec),
+                            }
+                        }
+                        None => match self.bound_of(&[Ty::Str]) {
+                            Some(sv) => (bin("+", id(&sv), st("")), Ty::Str),
+                            None => (st("seed string"), Ty::Str),
+                        },
+                    },
+                };
+                self.bound.entry(n.clone()).or_insert(ty);
+                (Stmt::Expr(assign(&n, e)), "derive")
             }
             _ => {
                 let n = self.free_name().unwrap_or_else(|| self.any_name());
